@@ -33,6 +33,9 @@ type c09table struct {
 
 func (t c09table) sig() string {
 	var sb strings.Builder
+	if len(t.OIDs) > 2000 {
+		return fmt.Sprintf("%s %d bool columns %v rows=%d", t.Mode, len(t.OIDs), t.RFmts, len(t.Rows))
+	}
 	fmt.Fprintf(&sb, "%s %v %v|", t.Mode, t.OIDs, t.RFmts)
 	for _, r := range t.Forms {
 		for _, f := range r {
@@ -53,17 +56,28 @@ func c09gen(rng *core.Rng, arrays bool) c09table {
 	if rng.Intn(40) == 0 {
 		n = core.Pick(rng, []int{64, 255, 256, 1000, 1600}) // very wide rows
 	}
+	huge := rng.Intn(400) == 0
+	if huge {
+		n = core.Pick(rng, []int{32767, 32768, 40000, 65535}) // the 16-bit field count is unsigned
+	}
 	pool := scalarOIDs
 	if arrays {
 		pool = append(append([]uint32{}, scalarOIDs...), arrayOIDs...)
 	}
 	for i := 0; i < n; i++ {
+		if huge {
+			t.OIDs = append(t.OIDs, pg.OIDBool)
+			continue
+		}
 		t.OIDs = append(t.OIDs, core.Pick(rng, pool))
 	}
 	nullPct := core.Pick(rng, []int{0, 10, 30, 60, 100})
 	nrows := 1 + rng.Intn(6)
 	if rng.Intn(25) == 0 {
 		nrows = 0 // a result without rows
+	}
+	if huge {
+		nrows = 1
 	}
 	for r := nrows; r > 0; r-- {
 		row := make([]any, n)
@@ -82,7 +96,11 @@ func c09gen(rng *core.Rng, arrays bool) c09table {
 		t.Mode = "simple"
 	} else {
 		t.Mode = "extended"
-		switch rng.Intn(4) {
+		shape := rng.Intn(4)
+		if huge && shape > 1 {
+			shape = 1 // a positional format vector for 40000 columns would exceed the harness servers' message limit
+		}
+		switch shape {
 		case 0:
 		case 1:
 			t.RFmts = []int16{int16(rng.Intn(2))}
@@ -170,6 +188,9 @@ func (ch c09) Run(c *core.Ctx) {
 				other := make([]int16, len(t.OIDs))
 				for j := range other {
 					other[j] = 1 - fmtFor(t.RFmts, j)
+				}
+				if len(other) > 2000 {
+					other = other[:1] // keep the Bind below the harness servers' message limit
 				}
 				in = append(in, pg.Bind("other", "", nil, nil, other)...)
 				c.Count("interleaved_second_portal", 1)
